@@ -26,7 +26,7 @@ class KrylovStepCap(Exception):
     """Raised by the probe when one worker step asks for more Krylov expansions than the simulator's step budget."""
 
 
-KRYLOV_BUDGET = 20000      # expansions per worker step; ordinary steps need tens to a few hundred
+KRYLOV_BUDGET = 6000       # expansions per op; ordinary ops need tens to a few hundred (relation ops: up to ~2000)
 
 
 def _observed_expand(self, f, tol, ncv, hermitian, V, H=None, **kwargs):
